@@ -115,6 +115,28 @@ CHECKS["C05"] = ("proof",
     "machine-checked proof in Coq (decision-table refinement of the resolution cell function) + kernel-evaluated "
     "recomputation of every real cell + real-parser operator-tree exploration", "DESIGN.md §6 C05")
 
+CHECKS["C03"] = ("other",
+    "PROVED in Coq (unbounded): forest_index_bijection (for every acyclic SPPF value Forest::solutions is the number of "
+    "trees, get_tree(i) is the i-th tree, None at or beyond solutions, iteration = enumeration, no duplicates when no "
+    "possibility list repeats a tree), elide normal form canonical, and a derivation-tree oracle all_trees proved sound, "
+    "complete and duplicate-free, exact under the kernel-evaluated certificate saturated_b. NOT proved: that the RNGLR "
+    "reducer/shifter reaches every derivation exactly once (a 40-page pen-and-paper result about a different formulation); "
+    "that half is decided by exploration: for every generated in-scope grammar (acyclic_b, eps_unamb_b) and every input "
+    "up to 6-7 tokens the REAL GlrParser's forest (solutions count, trees modulo elision, index/iteration/out-of-range "
+    "behaviour) is compared inside Coq with the verified oracle, and the Gallina forest model applied to the dumped real "
+    "SPPF must equal the real trees in index order.",
+    "machine-checked proof in Coq for forest enumeration and for the oracle; exploration of the real GLR runtime against "
+    "that verified oracle for RNGLR completeness / no duplication", "DESIGN.md §6 C03, reports/C03-C07.md")
+CHECKS["C07"] = ("other",
+    "PROVED in Coq (unbounded): the comparison relation (equality modulo elided trailing empty children, spans and token "
+    "values included) is an equivalence decided by a normal form; with lr_unique (C01) the LR tree is the unique "
+    "derivation tree. NOT proved: that the GLR runtime returns that tree (needs the unproved half of C03). Decided by "
+    "exploration: for every generated conflict-free grammar both real runtimes (LRParser on the LALR_PAGER table, "
+    "GlrParser on the LALR_RN table) run on the same valid and invalid inputs; same Ok/Err, one solution, trees equal "
+    "modulo elision including byte/line/col spans and token values, equal error positions; trees compared inside Coq.",
+    "exploration of both real runtimes with a Coq-proved comparison relation (verified-oracle exploration)",
+    "DESIGN.md §6 C07, reports/C03-C07.md")
+
 PENDING_REASON = ("not yet claimed: check under construction (DESIGN.md §6 describes the planned theorem, validator and "
                   "correspondence); it is registered only once it runs end to end")
 
